@@ -240,7 +240,7 @@ def gen_engine_case(rng, specials_unsampled_only=False, ladder=False):
     kshape = [b, c, h, w, 2]
     r = rng.random()
     mshape = [b if rng.random() < 0.5 else 1, 1, h, w, 1] if r < 0.7 else ([1, 1, 1, w, 1] if r < 0.85 else [b, c, h, w, 2])
-    dn, pat, m = gen_mask(rng, mshape, pattern=rng.choice(["random", "random", "sparse", "zeros", "ones"]))
+    dn, pat, m = gen_mask(rng, mshape, pattern=rng.choice(["random", "random", "sparse", "zeros", "ones", "values"]))
     sup = support(m, kshape)
     k = gen_kspace(rng, kshape, special_where=(~sup) if specials_unsampled_only else None)
     x = torch.tensor([rng.randint(-3, 3) for _ in range(b * h * w * 2)], dtype=torch.float32).reshape(b, h, w, 2)
@@ -956,8 +956,10 @@ def oracle(ctx: Ctx, deep: bool = False):
     from . import c03_ext as X
     yield from X.oracle_functional(ctx, deep)
     yield from X.oracle_histories(ctx, deep)
+    yield from X.oracle_unchanged(ctx, deep)
     yield from X.oracle_mask_func(ctx, deep)
     yield from X.oracle_ssl(ctx, deep)
+    yield from X.oracle_splitter(ctx, deep)
     yield from X.oracle_acs(ctx, deep)
     # (5) exhaustive small scope on bit patterns: every value class x every mask value, all four dtypes
     if True:
@@ -1101,6 +1103,8 @@ def nn_block_inputs(seed: int, three_d: bool, shape_seed: int | None = None, coi
         m[:] = False
     if seed % 11 == 0:
         m = m.to(torch.int32)
+    elif seed % 13 == 0:                        # a float mask whose set entries are weights / counts, not exactly 1
+        m = m.to(torch.float32) * torch.tensor([0.5, 2.0, -1.0, 3.0])[torch.randint(0, 4, m.shape, generator=g)]
     S = torch.randn(kshape, generator=g)
     full = torch.randn(kshape, generator=g) * (10.0 ** [0, 0, 3, -3][seed % 4])
     y = torch.where(m == 0, torch.tensor([0.0]), full)
@@ -1167,7 +1171,8 @@ def check_nn_block(name: str, seed: int, train: bool = False, coils: int | None 
     mode, all_b_masked, three_d = nn_block_specs()[name][2:5]
     out = []
     net, F, B = _build_block(name, seed, train)
-    with torch.no_grad():
+    grad_mode = [torch.no_grad, torch.inference_mode, torch.enable_grad][seed % 3]
+    with grad_mode():
         hist = list(nn_history(seed, three_d, coils))
         kshape, m, S, full, y, junk, sel = hist[-1]
         nxt = nn_block_inputs(seed + 7, three_d, shape_seed=seed, coils=coils)
@@ -1184,8 +1189,13 @@ def check_nn_block(name: str, seed: int, train: bool = False, coils: int | None 
             F.sel = F.junk = None
             B.seen.clear()
             torch.manual_seed(seed + step)
+            before = [_bits(t.float()) for t in (m, S, full, y)]
             o1 = _call_block(name, net, inputs)
             seen = list(B.seen)
+            if any((_bits(t.float()) != b).any() for t, b in zip((m, S, full, y), before)):
+                out.append((f"nn-{name}-mutates-input",
+                            f"{name}: call #{step + 1} modified one of its input tensors (mask / sensitivity map / k-space) in place "
+                            f"[{grad_mode.__name__}]"))
             fresh, _, _ = _build_block(name, seed, train)
             torch.manual_seed(seed + step)
             of = _call_block(name, fresh, tuple(t.clone() if isinstance(t, torch.Tensor) else t for t in inputs))
